@@ -12,7 +12,7 @@ RULE = (
     "reasons, all writer modes, Python writer and C API). After EVERY accepted call: return value == next available "
     "== 1 + highest relative index written, total written == accepted samples, total gap == skipped indices, their "
     "sum == next available, last file / directory == the model's path of the most recently written sample; "
-    "unchanged by rejected calls; retained after close. Non-trivial: a history with a block write in continuous "
+    "unchanged by rejected calls; retained after close; channel paths of about 20, 300 and 600 characters. Non-trivial: a history with a block write in continuous "
     "mode or a rejected call between two valid ones."
 )
 ASSUMPTIONS = c05.ASSUMPTIONS[:1] + ["the C API exposes only the next index and last file/dir; written/gap totals are judged through the Python writer"]
